@@ -455,4 +455,155 @@ def r5_11(ctx: Ctx) -> RuleResult:
     return r15_4(ctx, "R5.11")
 
 
-RULES = [r5_1, r5_3, r5_4, r5_5, r5_6, r5_7, r5_8, r5_9, r5_10, r5_11]
+PATCH_DOC = {"foo": ["bar", "baz"], "a": {"b": 1, "c": [1, {"d": 2}]}, "": {"": 5}, "0": "zero", "arr": [[1, 2], [3]], "t": True, "n": None,
+             "s": "str", "num": 1, "a/b": {"~": 1}, "ab": {"c": 1}, "nn": {"x": None}, "chars": ["a", "b"], "e": []}
+
+
+def _patch_samples() -> List[List[Dict[str, object]]]:
+    def op(name: str, path: str, **kw: object) -> Dict[str, object]:
+        d: Dict[str, object] = {"op": name, "path": path}
+        for k, v in kw.items():
+            d["from" if k == "from_" else k] = v
+        return d
+
+    one: List[Dict[str, object]] = []
+    # add: a new and an existing member, every position of an array incl. its length and `-`, beyond the length, not
+    # canonical, not an index, nested, the root, a missing / scalar parent, members that look like indices, escapes
+    for path, value in (("/new", 1), ("/new", {"k": [1]}), ("/a/b", [0]), ("/foo/0", "x"), ("/foo/1", "x"), ("/foo/2", "x"), ("/foo/-", "x"), ("/foo/3", "x"),
+                        ("/foo/01", "x"), ("/foo/x", "x"), ("/foo/1e0", "x"), ("/a/c/1/e", None), ("", {"whole": ["new"]}), ("", 7), ("/missing/x", 1), ("/s/x", 1),
+                        ("/t/0", 1), ("/n/-", 1), ("/0", "again"), ("/1", "one"), ("/arr/0/-", 9), ("/arr/1/1", 9), ("/arr/1/2", 9), ("/a~1b/~0", 2), ("/a~1b/new~1", 2),
+                        ("/", 6), ("//", 6), ("//x", 6), ("/foo/-/x", 1)):
+        one.append(op("add", path, value=value))
+    for path in ("/foo/0", "/foo/1", "/foo/2", "/foo/-", "/foo/01", "/a/b", "/a/missing", "/0", "/1", "/arr/0/1", "/arr/1/0", "/t/x", "/", "//", "/a~1b", "/a~1b/~0", "/a/c/1/d",
+                 "/s/0", "/missing/x"):
+        one.append(op("remove", path))
+    for path, value in (("/a/b", 2), ("/a/b", {"deep": [1]}), ("/foo/1", None), ("/foo/2", 1), ("/foo/-", 1), ("/missing", 1), ("", {"r": 1}), ("", [1]), ("/a/c/1/d", [3]), ("/0", 0),
+                        ("/1", 0), ("/", 0), ("/t", False), ("/s/0", "x")):
+        one.append(op("replace", path, value=value))
+    for src, dst in (("/foo/0", "/a/x"), ("/a/c", "/foo/-"), ("/a", "/a/b/x"), ("/a", "/a/b"), ("/a", "/a"), ("/foo/0", "/foo/0"), ("/foo/0", "/foo/1"), ("/foo/1", "/foo/0"),
+                     ("/foo/0", "/foo/2"), ("/foo/0", "/foo/-"), ("/missing", "/x"), ("/a/b", "/foo/5"), ("/a/b", "/s/x"), ("/a/c/1", "/arr/0/0"), ("/a/c/1/d", "/a/c/0"),
+                     ("/0", "/1"), ("/", "/x"), ("/a~1b", "/a/moved"), ("/foo", ""), ("/arr/0", "/arr/1/-"), ("/foo/2", "/x"), ("/a/c", "/a/c/0"),
+                     # a text prefix that is not a token prefix is no child
+                     ("/a", "/ab/moved"), ("/a", "/a~1b/moved"), ("/ab", "/a/in"), ("/a/c", "/a/c2"), ("/ab/c", "/ab/c/x")):
+        one.append(op("move", dst, from_=src))
+    for src, dst in (("/a", "/copy"), ("/a/c", "/foo/0"), ("/a/c", "/foo/-"), ("/a/c", "/foo/3"), ("/missing", "/x"), ("/a", "/a/b/y"), ("/a", "/a/new"), ("/foo", "/foo/1"),
+                     ("/foo/0", "/foo/2"), ("/a/c/1", ""), ("", "/self"), ("/t", "/n"), ("/arr", "/arr/0/0"), ("/foo/2", "/x"), ("/a/c", "/s/x")):
+        one.append(op("copy", dst, from_=src))
+    for path, value in (("/a/b", 1), ("/a/b", 1.0), ("/a/b", True), ("/a/b", "1"), ("/t", 1), ("/t", True), ("/n", None), ("/n", 0), ("/n", False), ("/s", "str"), ("/s", "st"),
+                        ("/a/c", [1, {"d": 2}]), ("/a/c", [1, {"d": 2.0}]), ("/a/c", [True, {"d": 2}]), ("/a/c", [1, {"d": 2, "e": 1}]), ("/a/c", [{"d": 2}, 1]),
+                        ("/missing", 1), ("/foo", ["bar", "baz"]), ("/foo", ["baz", "bar"]), ("/foo/2", "x"), ("", PATCH_DOC), ("/", {"": 5}), ("//", 5), ("//", 5.5),
+                        ("/a", {"c": [1, {"d": 2}], "b": 1}), ("/num", True), ("/0", "zero"), ("/arr/0", [1, 2]), ("/arr/0", [1, 2, 3]), ("/s/0", "s"),
+                        # an absent member is not a null member; an array is not the string of its items
+                        ("/nn", {"x": None}), ("/nn", {"y": None}), ("/nn", {}), ("/nn", {"x": None, "y": None}), ("/nn/x", None), ("/nn/x", False),
+                        ("/chars", "ab"), ("/chars", ["a", "b"]), ("/e", ""), ("/e", []), ("/s", ["s", "t", "r"]), ("/e", {}), ("/nn", [])):
+        one.append(op("test", path, value=value))
+    out = [[o] for o in one]
+    # sequences: a new root that later operations extend; a copy that is changed afterwards; a patch value that is
+    # extended by a later operation; a move followed by a test; an error after a change
+    out += [
+        [op("add", "", value={"x": []}), op("add", "/x/-", value=1), op("add", "/x/0", value=[0])],
+        [op("copy", "/z", from_="/a"), op("add", "/z/b", value=2), op("add", "/z/c/-", value=3), op("test", "/a/b", value=1), op("test", "/a/c", value=[1, {"d": 2}])],
+        [op("add", "/v", value=[1]), op("add", "/v/-", value=2), op("add", "/w", value={"k": {}}), op("add", "/w/k/n", value=1)],
+        [op("move", "/x", from_="/foo/0"), op("test", "/x", value="bar"), op("test", "/foo", value=["baz"])],
+        [op("remove", "/foo/0"), op("remove", "/foo/0"), op("remove", "/foo/0")],
+        [op("replace", "", value=[1, 2]), op("add", "/1", value="m"), op("remove", "/0")],
+        [op("add", "/foo/-", value="c"), op("move", "/foo/0", from_="/foo/2"), op("copy", "/foo/-", from_="/foo")],
+    ]
+    return out
+
+
+def r5_12(ctx: Ctx) -> RuleResult:
+    """The property itself on covering samples: `JSONPatch(ops).apply(doc)` - the loader, the builders, the pointer
+    parser and resolver, the six operations, the translation of errors - is executed abstractly (rules/model.py:
+    exceptions as they run, lists and objects changed in place) on a document and on operations that cover every
+    clause of RFC 6902 section 4, and the outcome is compared with the RFC written down on its own (rules/rfc6902.py):
+    the same document (as JSON values), or a patch error exactly where the RFC says error - the test-failure kind
+    for a failed test.  Also: the caller's operation list is unchanged afterwards, what the document received from
+    the patch shares no array or object with it, and a copied value shares none with its source."""
+    import copy as _copy
+
+    from sa.peval import UNKNOWN
+
+    from . import rfc6902
+    from .model import RAISES
+    from .model import Model
+    from .model import _ConstructorRaises
+
+    samples = _patch_samples()
+    rr = RuleResult("R5.12", "applying a patch gives the document RFC 6902 defines, or a patch error where it says error (covering samples)", floor=len(samples))
+    cls = ctx.repo.require_class("jsonpath.patch.JSONPatch")
+    afn = ctx.repo.find_method(cls, "apply")
+    if afn is None:
+        raise AnalysisError("R5.12: JSONPatch.apply not found")
+
+    def site(ops: List[Dict[str, object]]) -> FuncInfo:
+        name = str(ops[-1]["op"]) if len(ops) == 1 else ""
+        for c in op_classes(ctx):
+            if op_name(ctx, c) == name and c.methods.get("apply") is not None:
+                return c.methods["apply"]
+        return afn  # type: ignore[return-value]
+
+    for ops in samples:
+        shown = str(ops if len(ops) > 1 else ops[0])[:150]
+        try:
+            want: object = rfc6902.apply_patch(PATCH_DOC, ops)
+            refused = None
+        except rfc6902.Refused as err:
+            want, refused = None, err
+        model = Model(ctx, "R5.12")
+        model.whole_bodies = model.auto_construct = model.exact_exceptions = model.heap = True
+        given = _copy.deepcopy(ops)
+        doc = _copy.deepcopy(PATCH_DOC)
+        fn = site(ops)
+        try:
+            patch = model.new("jsonpath.patch.JSONPatch", given)
+        except _ConstructorRaises:
+            rr.bad(fn, fn.node, f"a patch cannot be built from {shown}: {model.last_raised}", construct=f"JSONPatch({shown[:80]}) raises")
+            continue
+        got = model.call(patch, "apply", [doc])
+        if got is UNKNOWN:
+            raise AnalysisError(f"R5.12: the result of applying {shown} cannot be determined")
+        if got is RAISES:
+            c = model.last_raised
+            if not c:
+                raise AnalysisError(f"R5.12: the class of the exception raised for {shown} cannot be determined")
+            if refused is None:
+                rr.bad(fn, fn.node, f"applying {shown} raises {c.split('.')[-1]}; RFC 6902 defines the result {want!r:.100}", construct=f"apply {shown[:90]} raises")
+            elif not ctx.repo.is_subclass(c, "JSONPatchError"):
+                rr.bad(fn, fn.node, f"applying {shown} fails with {c}, which is not a patch error", construct=f"apply {shown[:90]} raises {c}")
+            elif refused.kind != "test-or-error" and (refused.kind == "test") != ctx.repo.is_subclass(c, "JSONPatchTestFailure"):
+                rr.bad(fn, fn.node, f"applying {shown} fails with {c.split('.')[-1]}: " + ("a failed test must be reported as the test-failure kind of patch error"
+                       if refused.kind == "test" else "only a failed test is a test failure, this is another error"), construct=f"apply {shown[:90]} raises {c.split('.')[-1]}")
+            else:
+                rr.ok(fn.loc(), f"{shown}: {c.split('.')[-1]}")
+            continue
+        if refused is not None:
+            rr.bad(fn, fn.node, f"applying {shown} returns {got!r:.100}; RFC 6902 says this patch is an error ({refused})", construct=f"apply {shown[:90]} returns a document")
+            continue
+        problems = []
+        if rfc6902.has_cycle(got):
+            rr.bad(fn, fn.node, f"applying {shown} returns a value that contains itself (no JSON document does): a value was put into the document "
+                   "without being copied", construct=f"apply {shown[:100]} -> cyclic value")
+            continue
+        if not rfc6902.jeq(got, want):
+            problems.append(f"the result is {got!r:.160}; RFC 6902 defines {want!r:.160}")
+        if not rfc6902.jeq(given, ops):
+            problems.append("the caller's list of operations was changed by applying it")
+        if rfc6902.shares_structure(given, got):
+            problems.append("the result shares an array or object with the patch: a later change of the document changes the patch")
+        for o in ops:
+            if o["op"] == "copy" and not problems:
+                try:
+                    src_v, dst_v = rfc6902._get(got, rfc6902.tokens(str(o["from"]))), rfc6902._get(got, rfc6902.tokens(str(o["path"])))
+                except rfc6902.Refused:
+                    continue
+                if len(ops) == 1 and rfc6902.shares_structure(src_v, dst_v) and not rfc6902.tokens(str(o["path"]))[:len(rfc6902.tokens(str(o["from"])))] == rfc6902.tokens(str(o["from"])):
+                    problems.append("the copied value shares an array or object with its source")
+        if problems:
+            rr.bad(fn, fn.node, f"applying {shown}: " + "; ".join(problems), construct=f"apply {shown[:100]}")
+        else:
+            rr.ok(fn.loc(), f"{shown} -> as RFC 6902 defines")
+    return rr
+
+
+RULES = [r5_1, r5_3, r5_4, r5_5, r5_6, r5_7, r5_8, r5_9, r5_10, r5_11, r5_12]
